@@ -874,8 +874,8 @@ func runC19Karn(t *testing.T, x c19Karn, verbose bool) (c vfCase) {
 		}
 		s.afterEstablished()
 		a := s.as[0]
-		copies := map[uint32]int{}  // copies that reached the receiver
-		var due []time.Duration     // instants at which an acknowledgement is to be sent
+		copies := map[uint32]int{} // copies that reached the receiver
+		var due []time.Duration    // instants at which an acknowledgement is to be sent
 		nAccepted := 0
 		p.onPacket = func(pk *wPacket) {
 			acc := false
